@@ -30,7 +30,12 @@ def cases(tier, seed):
 def classify(run, i, model):
     # a depth disagreement between model and implementation is a C09 failure only if the
     # specification oracle (critical path of the reference trace) also disagrees: handled through
-    # spec code 15 in langcheck.standard; here nothing is classified directly
+    # spec code 15 in langcheck.standard.  Where the reference semantics is silent, the visitor model decides: its depth
+    # is the longest chain of the circuit it inlines (Props/C09.v), so a different depth() is a failure of C09
+    o = run.outcomes[i]
+    if model and model[0] == "ok" and o.get("unroll") == "ok" and o.get("depth") is not None and model[4] != o["depth"]:
+        return ("depth", {"kind": "program", "what": "depth() differs from the critical path of the inlined circuit (visitor model, coq/Lang/Unroll.v + Depth/DepthModel.v)",
+                          "depth()": o["depth"], "critical_path_of_the_inlined_circuit": model[4]})
     return None
 
 
